@@ -503,15 +503,25 @@ def classify_warning(c, warns, blocks, mapped=None):
             return k
     return None
 
+# witness of the listed finding C14-rst-argument-gap-decoded-as-code (first seen in a thorough run): replayed in every run
+RST_GAP_WITNESS = {
+    'image': bytes.fromhex('cdb0feafc4b6fe21bafecdaffecdc4fe21ccfecdaffec9e987cf18cf10c94f234f47233efdcfc9cf00cfc3c905cf4f3dcfe900c9cfc3c9c3fc80'),
+    'org': 65176, 'start': 65176, 'end': 65234, 'entry': None, 'opts': ['-r'], 'rst': True, 'mapkind': 'walk', 'mapfmt': 'zero_hex', 'dict': False,
+    'walk': [65176, 65179, 65180, 65183, 65186, 65189, 65192, 65195, 65198, 65199, 65200, 65201, 65203, 65205, 65210, 65211, 65213, 65215, 65217, 65219, 65220,
+             65221, 65223, 65224, 65226, 65227, 65228, 65230]}
+
 def run(shard, spec):
     n = N_CASES[shard.tier]
-    for case in range(spec['shard'], n, spec['of']):
+    cases = list(range(spec['shard'], n, spec['of']))
+    if spec['shard'] == 0:
+        cases.insert(0, 'rst-gap-witness')
+    for case in cases:
         rng = shard.rng('case', case)
-        c = make_case(rng)
+        c = make_case(rng) if case != 'rst-gap-witness' else dict(RST_GAP_WITNESS)
         rp = {'image': harness.b64(c['image']), 'org': c['org'], 'start': c['start'], 'end': c['end'], 'opts': c['opts'], 'mapkind': c['mapkind'], 'mapfmt': c['mapfmt'], 'dict': c['dict'], 'rst': c['rst'], 'entry': c.get('entry'), 'walk': c.get('walk')}
         res = check_case(shard, c, rp)
         shard.case((harness.h64(c['image']), c['org'], c['start'], c['end'], c['opts'], c['mapkind'], c['mapfmt']), bool(res) and (res >= 3 or c['mapkind'] != 'none'),
-                   sample={'org': c['org'], 'range': [c['start'], c['end']], 'opts': c['opts'], 'map': c['mapkind'] + '/' + c['mapfmt'], 'blocks': res} if case < 3 else None)
+                   sample={'org': c['org'], 'range': [c['start'], c['end']], 'opts': c['opts'], 'map': c['mapkind'] + '/' + c['mapfmt'], 'blocks': res} if case in (0, 1, 2) else None)
         shard.hist('map_kind', c['mapkind'])
         for o in c['opts']:
             if o != '-I':
